@@ -385,13 +385,13 @@ theorem mem_sortMembers (x : Bytes × Bytes) (l : List (Bytes × Bytes)) (h : x 
 
 /-! ### the encoder writes one JSON value -/
 
-/-- `compact` writes one JSON value whenever it succeeds -/
-def CompactValid : Prop := ∀ (esc : Bool) (src out : Bytes), compact esc src = .ok (some out) → IsVal out
+/-- `compact` writes one JSON value for this input whenever it succeeds -/
+def CompactValidOn (src : Bytes) : Prop := ∀ (esc : Bool) (out : Bytes), compact esc src = .ok (some out) → IsVal out
 
-theorem encRaw_valid (hC : CompactValid) (e : Bool) (b bs : Bytes) (h : encRaw e b = .ok bs) : IsVal bs := by
+theorem encRaw_valid (e : Bool) (b bs : Bytes) (hC : CompactValidOn b) (h : encRaw e b = .ok bs) : IsVal bs := by
   unfold encRaw at h
   split at h
-  · rename_i o ho; injection h with h; subst h; exact hC e b _ ho
+  · rename_i o ho; injection h with h; subst h; exact hC e _ ho
   · cases h
   · cases h
   · cases h
@@ -402,28 +402,28 @@ theorem plain_lit_false : ∀ x ∈ falseB, plain x := by
   intro x hx; simp [falseB] at hx; rcases hx with rfl | rfl | rfl | rfl | rfl <;> (unfold plain; decide)
 
 mutual
-theorem enc_valid (L : JsonLib) (hL : L.OK) (hC : CompactValid) :
-    ∀ (v : JV) (q e empty : Bool) (bs : Bytes), enc L q e empty v = .ok bs →
+theorem enc_valid (L : JsonLib) (hL : L.OK) (P : Bytes → Prop) (hC : ∀ b, P b → CompactValidOn b) :
+    ∀ (v : JV) (q e empty : Bool) (bs : Bytes), rawsOK P v → enc L q e empty v = .ok bs →
       (empty = false ∨ isTopErr v = false) → IsVal bs
-  | .undefined, q, e, empty, bs, h, _ => by
+  | .undefined, q, e, empty, bs, hR, h, _ => by
     simp only [enc] at h; injection h with h; subst h; exact isVal_null
-  | .nil, q, e, empty, bs, h, _ => by
+  | .nil, q, e, empty, bs, hR, h, _ => by
     simp only [enc] at h; injection h with h; subst h; exact isVal_null
-  | .bool b, q, e, empty, bs, h, _ => by
+  | .bool b, q, e, empty, bs, hR, h, _ => by
     simp only [enc] at h; injection h with h; subst h
     cases b
     · exact isVal_quoteIf q _ isVal_false plain_lit_false
     · exact isVal_quoteIf q _ isVal_true plain_lit_true
-  | .int v, q, e, empty, bs, h, _ => by
+  | .int v, q, e, empty, bs, hR, h, _ => by
     simp only [enc] at h; injection h with h; subst h
     exact isVal_quoteIf q _ (isVal_number _ (fmtInt_number _)) (fmtInt_plain _)
-  | .uint v, q, e, empty, bs, h, _ => by
+  | .uint v, q, e, empty, bs, hR, h, _ => by
     simp only [enc] at h; injection h with h; subst h
     exact isVal_quoteIf q _ (isVal_number _ (fmtNat_number _)) (fmtNat_plain _)
-  | .char v, q, e, empty, bs, h, _ => by
+  | .char v, q, e, empty, bs, hR, h, _ => by
     simp only [enc] at h; injection h with h; subst h
     exact isVal_quoteIf q _ (isVal_number _ (fmtInt_number _)) (fmtInt_plain _)
-  | .float f, q, e, empty, bs, h, _ => by
+  | .float f, q, e, empty, bs, hR, h, _ => by
     simp only [enc] at h
     split at h
     · cases h
@@ -434,52 +434,53 @@ theorem enc_valid (L : JsonLib) (hL : L.OK) (hC : CompactValid) :
       have h2 : f.isNaN = false := by
         cases hh : f.isNaN <;> simp_all
       exact isVal_quoteIf q _ (isVal_number _ (hL.float_token f h1 h2)) (hL.float_plain f h1 h2)
-  | .str s, q, e, empty, bs, h, _ => by
+  | .str s, q, e, empty, bs, hR, h, _ => by
     simp only [enc] at h
     split at h <;> (injection h with h; subst h; exact isVal_quoteString _ _)
-  | .bytes s, q, e, empty, bs, h, _ => by
+  | .bytes s, q, e, empty, bs, hR, h, _ => by
     simp only [enc] at h; injection h with h; subst h
     exact isVal_quoted _ (base64_plain s)
-  | .array xs, q, e, empty, bs, h, _ => by
+  | .array xs, q, e, empty, bs, hR, h, _ => by
     simp only [enc] at h
     cases hx : encList L q e xs with
     | ok es =>
       rw [hx] at h; injection h with h; subst h
-      exact isVal_array es (encList_valid L hL hC xs q e es hx)
+      exact isVal_array es (encList_valid L hL P hC xs q e es (by simpa [rawsOK] using hR) hx)
     | err _ => rw [hx] at h; cases h
     | panic _ => rw [hx] at h; cases h
-  | .map kvs, q, e, empty, bs, h, _ => by
+  | .map kvs, q, e, empty, bs, hR, h, _ => by
     simp only [enc] at h
     cases hx : encMembers L q e kvs with
     | ok ms =>
       rw [hx] at h; injection h with h; subst h
-      exact isVal_object e _ (fun m hm => encMembers_valid L hL hC kvs q e ms hx m (mem_sortMembers m ms hm))
+      exact isVal_object e _ (fun m hm => encMembers_valid L hL P hC kvs q e ms (by simpa [rawsOK] using hR) hx m (mem_sortMembers m ms hm))
     | err _ => rw [hx] at h; cases h
     | panic _ => rw [hx] at h; cases h
-  | .opts q' e' v, q, e, empty, bs, h, ht => by
+  | .opts q' e' v, q, e, empty, bs, hR, h, ht => by
     simp only [enc] at h
-    exact enc_valid L hL hC v q' e' empty bs h (by simpa [isTopErr] using ht)
-  | .ptrNil, q, e, empty, bs, h, _ => by
+    exact enc_valid L hL P hC v q' e' empty bs (by simpa [rawsOK] using hR) h (by simpa [isTopErr] using ht)
+  | .ptrNil, q, e, empty, bs, hR, h, _ => by
     simp only [enc] at h; injection h with h; subst h; exact isVal_null
-  | .ptr v, q, e, empty, bs, h, ht => by
+  | .ptr v, q, e, empty, bs, hR, h, ht => by
     simp only [enc] at h
-    exact enc_valid L hL hC v q e empty bs h (by simpa [isTopErr] using ht)
-  | .rawNil, q, e, empty, bs, h, _ => by
-    simp only [enc] at h; exact encRaw_valid hC _ _ _ h
-  | .raw b, q, e, empty, bs, h, _ => by
-    simp only [enc] at h; exact encRaw_valid hC _ _ _ h
-  | .errval, q, e, empty, bs, h, ht => by
+    exact enc_valid L hL P hC v q e empty bs (by simpa [rawsOK] using hR) h (by simpa [isTopErr] using ht)
+  | .rawNil, q, e, empty, bs, hR, h, _ => by
+    simp only [enc] at h; exact encRaw_valid _ _ _ (hC _ (by simpa [rawsOK] using hR)) h
+  | .raw b, q, e, empty, bs, hR, h, _ => by
+    simp only [enc] at h; exact encRaw_valid _ _ _ (hC _ (by simpa [rawsOK] using hR)) h
+  | .errval, q, e, empty, bs, hR, h, ht => by
     simp only [enc] at h
     have : empty = false := by simpa [isTopErr] using ht
     subst this
     simp at h
-  | .opaque tn, q, e, empty, bs, h, _ => by
+  | .opaque tn, q, e, empty, bs, hR, h, _ => by
     simp only [enc] at h; cases h
-theorem encList_valid (L : JsonLib) (hL : L.OK) (hC : CompactValid) :
-    ∀ (xs : List JV) (q e : Bool) (es : List Bytes), encList L q e xs = .ok es → ∀ x ∈ es, IsVal x
-  | [], q, e, es, h => by
+theorem encList_valid (L : JsonLib) (hL : L.OK) (P : Bytes → Prop) (hC : ∀ b, P b → CompactValidOn b) :
+    ∀ (xs : List JV) (q e : Bool) (es : List Bytes), rawsOKL P xs → encList L q e xs = .ok es → ∀ x ∈ es, IsVal x
+  | [], q, e, es, _, h => by
     simp only [encList] at h; injection h with h; subst h; simp
-  | x :: xs, q, e, es, h => by
+  | x :: xs, q, e, es, hR, h => by
+    simp only [rawsOKL] at hR
     simp only [encList] at h
     cases hx : enc L q e false x with
     | ok b =>
@@ -491,18 +492,19 @@ theorem encList_valid (L : JsonLib) (hL : L.OK) (hC : CompactValid) :
         intro y hy
         simp at hy
         rcases hy with rfl | hy
-        · exact enc_valid L hL hC x q e false _ hx (Or.inl rfl)
-        · exact encList_valid L hL hC xs q e bs hxs y hy
+        · exact enc_valid L hL P hC x q e false _ hR.1 hx (Or.inl rfl)
+        · exact encList_valid L hL P hC xs q e bs hR.2 hxs y hy
       | err _ => rw [hxs] at h; cases h
       | panic _ => rw [hxs] at h; cases h
     | err _ => rw [hx] at h; cases h
     | panic _ => rw [hx] at h; cases h
-theorem encMembers_valid (L : JsonLib) (hL : L.OK) (hC : CompactValid) :
-    ∀ (kvs : List (Bytes × JV)) (q e : Bool) (ms : List (Bytes × Bytes)),
+theorem encMembers_valid (L : JsonLib) (hL : L.OK) (P : Bytes → Prop) (hC : ∀ b, P b → CompactValidOn b) :
+    ∀ (kvs : List (Bytes × JV)) (q e : Bool) (ms : List (Bytes × Bytes)), rawsOKM P kvs →
       encMembers L q e kvs = .ok ms → ∀ m ∈ ms, IsVal m.2
-  | [], q, e, ms, h => by
+  | [], q, e, ms, _, h => by
     simp only [encMembers] at h; injection h with h; subst h; simp
-  | (k, x) :: xs, q, e, ms, h => by
+  | (k, x) :: xs, q, e, ms, hR, h => by
+    simp only [rawsOKM] at hR
     simp only [encMembers] at h
     cases hx : enc L q e false x with
     | ok b =>
@@ -514,12 +516,90 @@ theorem encMembers_valid (L : JsonLib) (hL : L.OK) (hC : CompactValid) :
         intro y hy
         simp at hy
         rcases hy with rfl | hy
-        · exact enc_valid L hL hC x q e false _ hx (Or.inl rfl)
-        · exact encMembers_valid L hL hC xs q e bs hxs y hy
+        · exact enc_valid L hL P hC x q e false _ hR.1 hx (Or.inl rfl)
+        · exact encMembers_valid L hL P hC xs q e bs hR.2 hxs y hy
       | err _ => rw [hxs] at h; cases h
       | panic _ => rw [hxs] at h; cases h
     | err _ => rw [hx] at h; cases h
     | panic _ => rw [hx] at h; cases h
+end
+
+/-! ### unsupported objects abort the encoding -/
+
+mutual
+theorem enc_unsupported (L : JsonLib) :
+    ∀ (v : JV) (q e empty : Bool), hasUnsupported v = true → (empty = false ∨ isTopErr v = false) →
+      ∀ bs, enc L q e empty v ≠ .ok bs
+  | .opaque tn, q, e, empty, _, _, bs => by simp [enc]
+  | .errval, q, e, empty, _, ht, bs => by
+    have : empty = false := by simpa [isTopErr] using ht
+    subst this; simp [enc]
+  | .array xs, q, e, empty, hu, _, bs => by
+    simp only [hasUnsupported] at hu
+    simp only [enc]
+    cases hx : encList L q e xs with
+    | ok es => exact absurd hx (encList_unsupported L xs q e hu es)
+    | err _ => simp
+    | panic _ => simp
+  | .map kvs, q, e, empty, hu, _, bs => by
+    simp only [hasUnsupported] at hu
+    simp only [enc]
+    cases hx : encMembers L q e kvs with
+    | ok ms => exact absurd hx (encMembers_unsupported L kvs q e hu ms)
+    | err _ => simp
+    | panic _ => simp
+  | .opts q' e' v, q, e, empty, hu, ht, bs => by
+    simp only [enc]
+    exact enc_unsupported L v q' e' empty (by simpa [hasUnsupported] using hu) (by simpa [isTopErr] using ht) bs
+  | .ptr v, q, e, empty, hu, ht, bs => by
+    simp only [enc]
+    exact enc_unsupported L v q e empty (by simpa [hasUnsupported] using hu) (by simpa [isTopErr] using ht) bs
+  | .undefined, _, _, _, hu, _, _ => by simp [hasUnsupported] at hu
+  | .nil, _, _, _, hu, _, _ => by simp [hasUnsupported] at hu
+  | .int _, _, _, _, hu, _, _ => by simp [hasUnsupported] at hu
+  | .uint _, _, _, _, hu, _, _ => by simp [hasUnsupported] at hu
+  | .float _, _, _, _, hu, _, _ => by simp [hasUnsupported] at hu
+  | .char _, _, _, _, hu, _, _ => by simp [hasUnsupported] at hu
+  | .bool _, _, _, _, hu, _, _ => by simp [hasUnsupported] at hu
+  | .str _, _, _, _, hu, _, _ => by simp [hasUnsupported] at hu
+  | .bytes _, _, _, _, hu, _, _ => by simp [hasUnsupported] at hu
+  | .ptrNil, _, _, _, hu, _, _ => by simp [hasUnsupported] at hu
+  | .rawNil, _, _, _, hu, _, _ => by simp [hasUnsupported] at hu
+  | .raw _, _, _, _, hu, _, _ => by simp [hasUnsupported] at hu
+theorem encList_unsupported (L : JsonLib) :
+    ∀ (xs : List JV) (q e : Bool), anyUnsupported xs = true → ∀ es, encList L q e xs ≠ .ok es
+  | [], q, e, hu, es => by simp [anyUnsupported] at hu
+  | x :: xs, q, e, hu, es => by
+    simp only [anyUnsupported, Bool.or_eq_true] at hu
+    simp only [encList]
+    cases hx : enc L q e false x with
+    | ok b =>
+      simp only []
+      rcases hu with hu | hu
+      · exact absurd hx (enc_unsupported L x q e false hu (Or.inl rfl) b)
+      · cases hxs : encList L q e xs with
+        | ok bs => exact absurd hxs (encList_unsupported L xs q e hu bs)
+        | err _ => simp
+        | panic _ => simp
+    | err _ => simp
+    | panic _ => simp
+theorem encMembers_unsupported (L : JsonLib) :
+    ∀ (kvs : List (Bytes × JV)) (q e : Bool), anyUnsupportedM kvs = true → ∀ ms, encMembers L q e kvs ≠ .ok ms
+  | [], q, e, hu, ms => by simp [anyUnsupportedM] at hu
+  | (k, x) :: xs, q, e, hu, ms => by
+    simp only [anyUnsupportedM, Bool.or_eq_true] at hu
+    simp only [encMembers]
+    cases hx : enc L q e false x with
+    | ok b =>
+      simp only []
+      rcases hu with hu | hu
+      · exact absurd hx (enc_unsupported L x q e false hu (Or.inl rfl) b)
+      · cases hxs : encMembers L q e xs with
+        | ok bs => exact absurd hxs (encMembers_unsupported L xs q e hu bs)
+        | err _ => simp
+        | panic _ => simp
+    | err _ => simp
+    | panic _ => simp
 end
 
 end UgoVerif.Proofs.Json
